@@ -150,7 +150,7 @@ func genConsumer(rt *rapid.T, withWriteTo bool) []int {
 
 func TestMultiRapid(t *testing.T) {
 	sec := vk.Sec("MultiRapid")
-	vk.Check(t, 6000, 400000, func(rt *rapid.T) {
+	vk.Check(t, 60000, 30000000, func(rt *rapid.T) {
 		n := rapid.IntRange(0, 4).Draw(rt, "nsrc")
 		c := multiCase{}
 		total, split := 0, false
@@ -321,7 +321,7 @@ func checkTee(c teeCase) string {
 
 func TestTeeRapid(t *testing.T) {
 	sec := vk.Sec("TeeRapid")
-	vk.Check(t, 6000, 400000, func(rt *rapid.T) {
+	vk.Check(t, 60000, 30000000, func(rt *rapid.T) {
 		c := teeCase{Src: genSrc(rt, "src", true), WFailAt: -1, WCloser: rapid.Bool().Draw(rt, "wcloser")}
 		if rapid.IntRange(0, 7).Draw(rt, "wfault") == 0 {
 			c.WFailAt = rapid.IntRange(0, c.Src.Len).Draw(rt, "wFailAt")
